@@ -2,11 +2,8 @@
 
 from collections import OrderedDict
 
-try:
-    from inspect import getfullargspec as _getargspec  # Python 3
-except ImportError:
-    from inspect import getargspec as _getargspec  # Python 2
 import warnings
+from inspect import signature as _signature
 
 import autograd.numpy as np
 
@@ -81,7 +78,11 @@ def holomorphic_grad(fun, x):
 def grad_named(fun, argname):
     """Takes gradients with respect to a named argument.
     Doesn't work on *args or **kwargs."""
-    arg_index = _getargspec(fun).args.index(argname)
+    # positions as the caller of `fun` passes them: the implicit first parameter of a bound method,
+    # class method or callable object is not among them (and a decorator's wrapper is what gets called)
+    params = _signature(fun, follow_wrapped=False).parameters.values()
+    positional = [p.name for p in params if p.kind in (p.POSITIONAL_ONLY, p.POSITIONAL_OR_KEYWORD)]
+    arg_index = positional.index(argname)
     return grad(fun, arg_index)
 
 
